@@ -26,6 +26,9 @@ let print_row kind (r : ForestM.row) =
     (String.concat "," (List.map (fun (a, b) -> Printf.sprintf "%d:%d" (int_of_n a) (int_of_n b)) r.ForestM.r_attrs))
     (opt_n r.ForestM.r_root) (opt_n r.ForestM.r_unit)
 
+(* DW_AT_sibling name byte_size const_value abstract_origin decl_line declaration external specification MIPS_linkage_name *)
+let find_names = [1; 3; 11; 28; 49; 59; 60; 63; 71; 0x2007]
+
 let flush_forest (units : (n * n * n * pdie list) list) =
   let f = List.map (fun (off, ver, ab, ds) ->
       let roots, _ = build (List.rev ds) 0 in
@@ -35,6 +38,14 @@ let flush_forest (units : (n * n * n * pdie list) list) =
   Printf.printf "COOKEDUNITS %s\n" (list_n (List.map (fun u -> u.ForestM.u_off) (ForestM.cooked_units f)));
   List.iter (print_row "RAW") (ForestM.raw_rows f);
   List.iter (print_row "COOKED") (ForestM.cooked_rows f);
+  (* what the model of find_attribute (FindAttr.v) finds for a few attribute names on every stored DIE *)
+  let fuel = ForestM.size f in
+  List.iter (fun d ->
+      let one x = match FindAttrM.find_attr fuel f d (n_of_int x) with
+        | Some (o, a) -> Printf.sprintf "%d=%d:%d" x (int_of_n o) (int_of_n a.ForestM.a_form)
+        | None -> Printf.sprintf "%d=-" x in
+      Printf.printf "FIND %d %s\n" (int_of_n (ForestM.d_off d)) (String.concat " " (List.map one find_names)))
+    (ForestM.raw_entries f);
   print_endline "END"
 
 let run () =
